@@ -313,13 +313,24 @@ func t2b(c *vm.Ctx, r *vm.Rand, g *nbtgen.G, i int) {
 	text := lay.Text(tree)
 	// the generator's own text must be in the agreement grammar by the independent reader (self-check of the oracle)
 	ref := refsnbt.Parse([]byte(text))
-	if ref.Status != refsnbt.OK || refnbt.Equal(ref.Tree, tree, refnbt.Opts{EmptyListElemFree: true}) != "" {
+	// a text with a number-like key left bare is outside the agreement grammar (a reader may insist on quotes there)
+	// but has one reading: refusing it is fine, accepting it with another meaning is not
+	mayRefuse := lay.Feats["key.bare-number-like"]
+	if mayRefuse {
+		if ref.Status != refsnbt.Lenient || ref.IfAccepted == nil || refnbt.Equal(ref.IfAccepted, tree, refnbt.Opts{EmptyListElemFree: true}) != "" {
+			panic(fmt.Sprintf("oracle self-check failed: generator text %q with a bare number-like key: %v %s", short(text), ref.Status, ref.Reason))
+		}
+	} else if ref.Status != refsnbt.OK || refnbt.Equal(ref.Tree, tree, refnbt.Opts{EmptyListElemFree: true}) != "" {
 		panic(fmt.Sprintf("oracle self-check failed: generator text %q not read back by refsnbt: %v %s", short(text), ref.Status, ref.Reason))
 	}
 	c.Eval(vm.HashStr("t2b", text), len(text) > 6)
 	wit := func() any { return map[string]any{"text": short(text), "tree": refnbt.Describe(tree)} }
 	doc, tt, err, pan := toBinary(c, "t2b/generated", text, wit)
 	if pan {
+		return
+	}
+	if err != nil && mayRefuse {
+		c.Cover("text.key.bare-number-like.refused")
 		return
 	}
 	if err != nil {
